@@ -676,6 +676,14 @@ def _iter_unused_names(
     # preserve presumably contains everything that any outer scope could be interested
     # in. So any name that is set but never accessed, and that is not in preserve, can
     # immediately be deleted.
+    # Functions and lambdas defined in scope may run at any later time, so the names they read
+    # cannot be undefined by looking at what follows an assignment.
+    deferred_reads = collections.defaultdict(set)
+    for funcdef in core.walk(scope, (ast.FunctionDef, ast.AsyncFunctionDef, ast.Lambda)):
+        if funcdef is not scope:
+            for name in core.walk(funcdef, ast.Name(ctx=ast.Load)):
+                deferred_reads[name.id].add(funcdef)
+
     names_in_scope = {name.id for name in core.walk(scope, ast.Name)}
     for name in names_in_scope - preserve:
         if not any(core.walk(scope, ast.Name(id=name, ctx=(ast.Load)))):
@@ -740,6 +748,7 @@ def _iter_unused_names(
                     if (
                         isinstance(node, (ast.Assign, ast.AnnAssign))
                         and name not in subsequent_required
+                        and name not in deferred_reads
                         and (
                             # And (name) is either not in preserve (so nothing upstream cares about
                             # it), or (name) will surely be defined by a subsequent node
@@ -755,8 +764,18 @@ def _iter_unused_names(
                         # If node (i) is something more complicated (like a loop or something), it
                         # may be that (name) is defined and then used in node (i). But definitions
                         # of (name) that (node) considers unused are still surely unused.
+                        functions_in_node = set(
+                            core.walk(node, (ast.FunctionDef, ast.AsyncFunctionDef, ast.Lambda))
+                        )
+                        read_elsewhere = {
+                            deferred_name
+                            for deferred_name, funcdefs in deferred_reads.items()
+                            if funcdefs - functions_in_node
+                        }
                         yield from core.filter_nodes(
-                            _iter_unused_names(node, preserve=preserve | subsequent_required),
+                            _iter_unused_names(
+                                node, preserve=preserve | subsequent_required | read_elsewhere
+                            ),
                             ast.Name(id=name),
                         )
 
